@@ -66,6 +66,10 @@ fn main() {
     let seed = pverif::rng::seed_from_env();
     // quiet panics of the code under test (they are caught and reported)
     pverif::panics::install();
+    if prop.starts_with('C') {
+        let limit = std::env::var("PVERIF_WATCHDOG_S").ok().and_then(|v| v.parse().ok()).unwrap_or(if tier == Tier::Thorough { 900 } else { 300 });
+        pverif::panics::start_watchdog(&prop, tier, seed, limit);
+    }
     let code = std::panic::catch_unwind(std::panic::AssertUnwindSafe(|| match prop.as_str() {
         "C01" => pverif::c01::run(tier, seed, replay),
         "C02" => pverif::c02::run(tier, seed, replay),
